@@ -373,15 +373,52 @@ class Tokens:
             if last in ("index_mut", "index", "get_mut") and len(d["args"]) == 2:
                 inner = self.dest_range(f, d["args"][0], depth + 1)
                 r = self.range_of(f, d["args"][1])
-                return r if inner in ("..", None) else "%s[%s]" % (inner, r)
+                return r if inner in ("..", None) else compose_range(inner, r)
             if last in VIEW_LAST and d["args"]:
                 return self.dest_range(f, d["args"][0], depth + 1)
             return ".."
         if d["k"] == "assign" and d["rv"]["k"] in ("ref", "rawptr"):
             return self.dest_range(f, {"k": "copy", "place": {"local": d["rv"]["place"]["local"], "proj": []}}, depth + 1) if [e["k"] for e in d["rv"]["place"]["proj"]] in ([], ["deref"]) else "?"
         if d["k"] == "assign" and d["rv"]["k"] in ("use", "cast"):
+            op = core.op_place(d["rv"]["op"])
+            if op is not None and len(op["proj"]) == 1 and op["proj"][0]["k"] == "field" and f.locals[op["local"]]["ty"].get("k") == "tuple":
+                # one half of split_at_mut(view, k)
+                ds2 = [x for x in f.defs_of(op["local"]) if not f.blocks[x[0]]["cleanup"]]
+                if len(ds2) == 1 and ds2[0][1] == "term" and last_seg(ds2[0][2]) in ("split_at_mut", "split_at") and len(ds2[0][2]["args"]) == 2:
+                    inner = self.dest_range(f, ds2[0][2]["args"][0], depth + 1)
+                    k = self.sym(f, ds2[0][2]["args"][1])
+                    half = "..%s" % k if op["proj"][0].get("i", 0) == 0 else "%s.." % k
+                    return half if inner in ("..", None) else compose_range(inner, half)
+                return "?"
             return self.dest_range(f, d["rv"]["op"], depth + 1)
         return ".."
+
+
+def sym_add(a, b):
+    if not a or a == "0":
+        return b
+    if not b or b == "0":
+        return a
+    if a.isdigit() and b.isdigit():
+        return str(int(a) + int(b))
+    # keep the constant part first: 23 + n
+    if b.isdigit() and not a.isdigit():
+        a, b = b, a
+    if a.isdigit() and "+" in b and b.split("+", 1)[0].isdigit():
+        h, t = b.split("+", 1)
+        return "%d+%s" % (int(a) + int(h), t)
+    return "%s+%s" % (a, b)
+
+
+def compose_range(inner, r):
+    """Absolute range of `view[inner][r]` (both `a..b` texts with optional ends); '?' when not composable."""
+    if ".." not in str(inner) or ".." not in str(r) or "[" in str(inner) or "?" in str(inner) or "?" in str(r):
+        return "%s[%s]" % (inner, r)
+    a, b = str(inner).split("..", 1)
+    c, d = str(r).split("..", 1)
+    start = sym_add(a, c)
+    end = sym_add(a, d) if d else b
+    return "%s..%s" % (start or "0" if (start or end) else "", end)
 
 
 def pos_key(p):
